@@ -348,9 +348,12 @@ class _Dup(object):
     _can_break_flow = True
 
     def run(self, flow):
+        import copy
         for v in flow:
+            # a copy: a later Variable updates the context of `v` in place, which must not show inside the list
+            w = [copy.deepcopy(v)]
             yield v
-            yield [v]
+            yield w
 
 
 JUNK = {"int": 5, "none": None, "float": 2.5}
